@@ -621,7 +621,10 @@ def savedir_behaviours(ck, qr, numpy, tmp):
     finally:
         shutil.rmtree(d, ignore_errors=True)
     # canonical histories (0 = no tag given)
-    seqs = [[3, 2, 0], [2, 0], [0, 3, 0], [0, 0, 2, 0], [5, 1, 0, 0]]
+    # (tags >= 100 stand for tags that are not integers: strings)
+    seqs = [[3, 2, 0], [2, 0], [0, 3, 0], [0, 0, 2, 0], [5, 1, 0, 0],
+            [101, 0, 102, 0], [2, 101, 0, 101]]
+    NAMES = {101: "first", 102: "second"}
     for beh in behs:
         seqs.append([int(st["_args"][0]) for act, st in beh[1:]])
     seen = set()
@@ -655,6 +658,7 @@ def savedir_behaviours(ck, qr, numpy, tmp):
             for k, t in enumerate(seq, start=1):
                 obj = make(k)
                 ints = [x for x in expected if isinstance(x, int)]
+                t = NAMES.get(t, t)
                 spec_tag = t if t else ((max(ints) + 1) if ints else 1)
                 if t == 0:
                     obj.savedir(dname)
@@ -677,11 +681,11 @@ def savedir_behaviours(ck, qr, numpy, tmp):
             gotmap = {t: ident(o) for t, o in got.items()}
             ck.case("savedir-round-trip", tuple(seq),
                     nontrivial=0 in seq and any(x > 0 for x in seq),
-                    sample=dict(rp, loaded=sorted(gotmap.items())))
+                    sample=dict(rp, loaded=sorted(gotmap.items(), key=str)))
             if silently or gotmap != expected:
                 ck.violation("savedir-round-trip", "savedir:lost-object",
-                             dict(rp, loaded=sorted(gotmap.items()),
-                                  expected=sorted(expected.items()),
+                             dict(rp, loaded=sorted(gotmap.items(), key=str),
+                                  expected=sorted(expected.items(), key=str),
                                   what=silently), rp)
             elif drift:
                 ck.model_drift("savedir %r: save %d got the automatic tag %r, "
